@@ -90,7 +90,7 @@ def build(src_text, flavour='gxx', extra=(), link_handler=True, name='tu', timeo
         except subprocess.TimeoutExpired:
             raise BuildError('build timeout', 'compiler timeout after %ds' % timeout, src_text)
         if r.returncode != 0:
-            diag = trunc('\n'.join(l for l in r.stderr.splitlines() if 'error' in l or 'note: ' in l) or r.stderr)
+            diag = trunc('\n'.join(l for l in r.stderr.splitlines() if 'error' in l or 'note: ' in l or (name + '.cpp:') in l) or r.stderr, lines=80)
             tmp = err + '.%d' % os.getpid()
             open(tmp, 'w').write(diag); os.replace(tmp, err)
             raise BuildError('build failed', diag, src_text)
